@@ -191,6 +191,27 @@ def explore(ctx, depth):
             ctx.seen({'clause': 'cli single file'}, True)
             if got != exp:
                 ctx.fail({'text': jobs[0][0], 'clause': 'CLI single file'}, 'python -m kernpy --kern2ekern does not write what the API produces', impl=got, expected=exp)
+            # single file WITHOUT an output path, given through a symbolic link that lives in another directory under another name: the result
+            # is written next to the path that was given, with its stem (round 6, C20_r6_1: `Path.resolve()` follows the link)
+            ldir, ddir = os.path.join(tmp, 'work'), os.path.join(tmp, 'data')
+            os.makedirs(ldir); os.makedirs(ddir)
+            target = os.path.join(ddir, '0001.blob')
+            shutil.copyfile(p, target)
+            link = os.path.join(ldir, 'kyrie.krn')
+            try:
+                os.symlink(target, link)
+            except OSError:
+                link = None
+            if link:
+                subprocess.run([sys.executable, '-m', 'kernpy', '--kern2ekern', '--input_path', link], env=env, cwd=tmp,
+                               stdout=subprocess.PIPE, stderr=subprocess.PIPE, text=True, timeout=300)
+                want = os.path.join(ldir, 'kyrie.ekrn')
+                got = open(want, newline='').read() if os.path.exists(want) else None
+                ctx.seen({'clause': 'cli single file through a symbolic link'}, True)
+                if got != exp:
+                    ctx.fail({'text': jobs[0][0], 'clause': 'CLI single file given through a symbolic link, no output path',
+                              'work_dir': sorted(os.listdir(ldir)), 'data_dir': sorted(os.listdir(ddir))},
+                             'python -m kernpy --kern2ekern does not write <stem of the given path>.ekrn next to the given path', impl=got, expected=exp)
             # directory, non recursive then recursive
             for rec in (False, True):
                 for q, _, _ in paths:
@@ -240,6 +261,29 @@ def explore(ctx, depth):
                 if got != eb:
                     ctx.fail({'clause': 'CLI directory, second run', 'text_first_run': ta, 'text_second_run': tb},
                              'a second directory run does not convert an input that was replaced (with an older time stamp) since the first run', impl=got, expected=eb)
+        # load, edit the returned document in place, load the same unchanged file again: the second document is the document of the file
+        # (round 6, C20_r6_2: `load` memoised per file state and handed out shallow clones)
+        if cli_jobs:
+            ltext = cli_jobs[0][0]
+            lp2 = os.path.join(tmp, 'again.krn')
+            with open(lp2, 'w', encoding='utf-8', newline='') as f:
+                f.write(ltext)
+            def load_edit_load():
+                d1, _ = kp.load(lp2)
+                for tk in d1.get_all_tokens():
+                    try:
+                        tk.encoding = tk.encoding.upper()
+                        tk.hidden = True
+                    except Exception:
+                        pass
+                d2, _ = kp.load(lp2)
+                return kp.dumps(d2)
+            ref = call(lambda: kp.dumps(kp.loads(ltext)[0]))
+            got = call(load_edit_load)
+            ctx.seen({'clause': 'load, edit, load again'}, True)
+            if got != ref:
+                ctx.fail({'text': ltext, 'clause': 'load, edit the document, load the same file again'},
+                         'a second load of an unchanged file is not the document of the file after the first loaded document was edited in place', impl=got, expected=ref)
         # a single field longer than 128 KiB (a huge global comment): the string reader and the file reader agree, whatever the order of the calls
         long_text = '!!!ONB: ' + 'x' * 140000 + '\n**kern\n4c\n*-\n'
         lp = os.path.join(tmp, 'longfield.krn')
